@@ -432,6 +432,61 @@ def r1_relation_shift(F, r):
         raise AnchorError(f"only {n} relation rules read vehicle shifts")
 
 
+def p2_confirmed_guards(F, r):
+    """two input-derived panics that sit OUTSIDE the reach of validation's error codes are kept away by one guard each (confirmed by reading, frozen here):
+    (a) `create_approx_matrices` asserts that every location is a coordinate and runs BEFORE validation — it may only be reached when the problem has no index
+        locations (`false` edge of `CoordIndex::has_indices`);
+    (b) the reader's `parse_time_window` asserts `len == 2`; the validation helper `get_time_window_from_vec` must answer `None` (=> E1103 / E1303 / E1304) unless the
+        array has exactly two entries, i.e. `get_time_window` is reached only on the `len == 2` edge."""
+    # (a)
+    root = "vrp_pragmatic::format::problem::problem_reader::map_to_problem_with_approx"
+    fn = F.fns.get(root)
+    if fn is None:
+        raise AnchorError(root)
+    appr = [bi for bi, t in mir.calls(fn) if t["callee"].endswith("create_approx_matrices")]
+    if not appr:
+        r.ok("map_to_problem_with_approx: approximation guard", "create_approx_matrices is not called here any more")
+    else:
+        gates = []
+        for bi, t in mir.calls(fn):
+            if t["callee"].endswith("CoordIndex::has_indices"):
+                be = mir.bool_edges(fn, bi)
+                if be:
+                    gates.append(be[False])     # (switch block, target of the `no index locations` edge): with it blocked the approximation must be unreachable
+        reach = mir.reach(fn, [0], blocked_edges=gates) if gates else set(range(len(fn["bbs"])))
+        if gates and all(b not in reach for b in appr):
+            r.ok("map_to_problem_with_approx: approximation guard", "create_approx_matrices only when has_indices() is false")
+        else:
+            r.fail("map_to_problem_with_approx: approximation guard", "create_approx_matrices (asserts `approximation requires coordinates`, runs before validation) is reachable for a problem "
+                   "that has index locations: a well-formed document mixing index and coordinate locations crashes instead of yielding E1502/E1503", F.loc(root, fn["bbs"][appr[0]]["t"]["ln"]))
+    # (b)
+    g = "vrp_pragmatic::validation::common::get_time_window_from_vec"
+    gfn = F.fns.get(g)
+    if gfn is None:
+        raise AnchorError(g)
+    tw_calls = [(h, bi) for h in F.family(g) for bi, t in mir.calls(F.fns[h]) if t["callee"].endswith("validation::common::get_time_window")]
+    if not tw_calls:
+        raise AnchorError("get_time_window_from_vec no longer calls get_time_window")
+    eq2 = []
+    for bi, si, st in mir.stmts(gfn):
+        rv = st["r"]
+        if rv["k"] == "bin" and rv["op"] in ("Eq", "Ne") and any(mir.is_const(o) and str(o["c"]).startswith("2_") for o in rv["o"]) and \
+                any(mir.is_place(o) and any(k == "call" and gfn["bbs"][v]["t"]["callee"].endswith("::len") for k, v, p_ in mir.trace(gfn, o)) for o in rv["o"]):
+            sw = gfn["bbs"][bi]["t"]
+            if sw["k"] == "switch":
+                zero = [tb for v, tb in sw["tg"] if v == 0]
+                unequal_edge = (zero[0] if zero else None) if rv["op"] == "Eq" else sw["else"]
+                if unequal_edge is not None:
+                    eq2.append((bi, unequal_edge))
+    in_parent = [bi for h, bi in tw_calls if h == g]
+    ok = bool(eq2) and len(in_parent) == len(tw_calls) and all(b not in mir.reach(gfn, [e for _, e in eq2]) for b in in_parent)
+    if ok:
+        r.ok("get_time_window_from_vec: exactly two dates", "a window is produced only on the `len == 2` edge")
+    else:
+        r.fail("get_time_window_from_vec: exactly two dates", "a time-window array with one or three dates is no longer answered with None: validation (E1103 / E1303 / E1304) accepts it and "
+               "the reader's parse_time_window asserts `len == 2` — a crash instead of an error code", F.loc(g))
+
+
 def run(ctx):
     ctx.explanation = (
         "Structural clauses of `validation is total and matches its documented rules`: validation dominates (through the Ok edge of `?`) every reader "
@@ -445,6 +500,7 @@ def run(ctx):
     ctx.run("C10-V2", "every validation rule function is reachable from ValidationContext::validate; module validators aggregate all results", v2_rules_wired, floor=38)
     ctx.run("C10-V3", "code literal == rule name; codes in code == codes in docs", v3_code_tables, floor=30)
     ctx.run("C10-P1", "input-derived panics (narrow): direct unwrap/expect/index on document values are confirmed guarded; fields fed to panicking parsers are read by validation", p1_input_panics, floor=10)
+    ctx.run("C10-P2", "confirmed guards of two input-derived panics outside validation's reach (approximation before validation; two-date windows)", p2_confirmed_guards, floor=2)
     ctx.run("C10-E1", "every validation rule has a single accepting exit (reasoned exceptions)", e1_single_accept_exit, floor=35)
     ctx.run("C10-R1", "relation rules select the vehicle shift by the relation's shift index", r1_relation_shift, floor=2)
     ctx.run("C10-V4", "no Result produced in validation is dropped", v4_no_dropped_results, floor=1)
